@@ -50,9 +50,14 @@ def replay(chk, kind, variant, mutate, n, depth, feat):
     wd, _ = model(chk, kind, variant, mutate, True, feat=feat)
     simdir = os.path.join(wd, "sim")
     os.makedirs(simdir)
-    r2 = tlc.run(wd, "MC", workers=8, timeout=600, simulate="file=%s/tr,num=%d" % (simdir, max(1, n // 8)), depth=depth, seed=chk.seed % (2 ** 31))
+    r2 = tlc.run(wd, "MC", workers=8, timeout=900, simulate="file=%s/tr,num=%d" % (simdir, max(1, n // 8)), depth=depth, seed=chk.seed % (2 ** 31))
+    if r2.rc != 0:        # once seen on a heavily loaded machine: retry once before giving up
+        import shutil
+        shutil.rmtree(simdir, ignore_errors=True)
+        os.makedirs(simdir)
+        r2 = tlc.run(wd, "MC", workers=4, timeout=900, simulate="file=%s/tr,num=%d" % (simdir, max(1, n // 4)), depth=depth, seed=chk.seed % (2 ** 31))
     if r2.rc != 0:
-        raise MachineryError("LwCache simulate failed: %s" % r2.out[-800:])
+        raise MachineryError("LwCache simulate failed (rc %s, timed out %s): %s" % (r2.rc, r2.timed_out, r2.out[-800:]))
     paths = [(os.path.join(simdir, f), kind) for f in sorted(os.listdir(simdir))]
     cnt = 0
     with mp.get_context("fork").Pool(16) as pool:
@@ -67,6 +72,41 @@ def replay(chk, kind, variant, mutate, n, depth, feat):
     chk.traces_validated += cnt
     chk.add_phase("LwCache %s behaviours replayed on a long-lived real object vs freshly created objects" % kind, behaviours=cnt, depth=depth)
     tlc.cleanup("C11_%s_%s_%s%s" % (kind, feat, variant, "_mut" if mutate else ""))
+
+
+def directed_truncation(chk):
+    """a distribution whose truncated tail (more than a dozen outputs below 1e-9) makes it sum to 1 - 2e-8: sampling must not change
+    what probability_distribution reports (read / sample_N_inputs / read on one object, against a fresh object)"""
+    import numpy as np
+    import lightworks as lw
+    from lightworks import emulator as emu
+    from scipy.linalg import expm
+    n = 10
+    U = expm(1j * 3e-5 * (np.ones((n, n)) - np.eye(n)))
+    ins = [1, 1, 1] + [0] * 7
+    s = emu.Sampler(lw.Unitary(U), lw.State(ins))
+    p0 = dict(s.probability_distribution)
+    chk.count(key="directed-truncation")
+    try:
+        r1 = s.sample_N_inputs(20, seed=1)
+        p1 = dict(s.probability_distribution)
+        r2 = s.sample_N_inputs(20, seed=1)
+    except Exception as e:  # noqa: BLE001
+        from ..common import library_raised
+        if not library_raised(e):
+            raise
+        chk.violation("raised/sample_n_in", "sample_N_inputs raised %s: %s" % (type(e).__name__, e), script={"directed": "truncated tail"}, sig={"call": "sampler.sample_n_in"})
+        return
+    fresh = dict(emu.Sampler(lw.Unitary(U), lw.State(ins)).probability_distribution)
+    if p1 != fresh or p1 != p0:
+        d = max(abs(p1[k] - fresh.get(k, 0.0)) for k in p1)
+        chk.violation("stale/sampler/read_dist", "after sample_N_inputs the long-lived sampler reports a distribution that differs from a fresh object's by %.3g "
+                      "(history: read, sample_N_inputs, read; 10-mode near-identity unitary, 3 photons, distribution sums to %.10f)" % (d, sum(p0.values())),
+                      script={"directed": "truncated tail", "history": ["read_dist", "sample_n_in", "read_dist"]}, sig={"call": "sampler.read_dist", "directed": "truncation"})
+    if dict(r1) != dict(r2):
+        chk.violation("stale/sampler/sample_n_in", "the same seed gave different samples before and after the first sampling call", script={"directed": "truncated tail"},
+                      sig={"call": "sampler.sample_n_in", "directed": "truncation"})
+    chk.add_phase("directed history: distribution with a truncated tail (sums to 1 - 2e-8)", sum=sum(p0.values()))
 
 
 def run(tier):
@@ -93,6 +133,7 @@ def run(tier):
     replay(chk, "quick", "fixedps", True, n, 14, "quick_c")
     replay(chk, "quick", "fixedps", True, n, 14, "quick_d")
     replay(chk, "analyzer", "fixed", False, 200 if th else 64, 8, "analyzer")
+    directed_truncation(chk)
     chk.assumptions = ["TLC 1.8", "the world of the replay: two 3-mode lossy circuits that differ only in their herald photon number, one shared Parameter, "
                        "one PostSelection object; 'same distribution' = same keys and values to 1e-12, same seeded samples"]
     return chk.finish()
